@@ -872,6 +872,33 @@ func (h *harness) exampleYAML(caseID string) {
 			differing = append(differing, fmt.Sprintf("%s: example %s, defaults.go %s", l.path, leafString(want, l.path), leafString(def, l.path)))
 		}
 	}
+	// the other way round: every key the example file documents is a key of the configuration (a key that is written in
+	// the file and unknown to the structure is dropped without a word, and so is its BHS_ variable)
+	known := map[string]bool{}
+	for _, l := range h.ls {
+		known[l.path] = true
+	}
+	var walk func(prefix string, v any)
+	walk = func(prefix string, v any) {
+		if m, ok := v.(map[string]any); ok {
+			for k, c := range m {
+				p := k
+				if prefix != "" {
+					p = prefix + "." + k
+				}
+				walk(p, c)
+			}
+			return
+		}
+		if prefix == "" {
+			return
+		}
+		r.Count("documented_keys_looked_up", 1)
+		if !known[prefix] {
+			r.Violate("documented-key-unknown|key="+prefix, fmt.Sprintf("config.example.yaml documents the key %s (value %v); the configuration structure has no such key, so neither the file value nor %s has any effect", prefix, v, envName(prefix)), caseID, map[string]any{"key": prefix})
+		}
+	}
+	walk("", tree)
 	r.Extra("example_yaml_keys_not_listed", missing)
 	r.Extra("example_yaml_values_differing_from_defaults_go", differing)
 	res := h.startup(nil, "", nil, 0, path)
